@@ -434,7 +434,10 @@ impl Store {
     /// build the directory image left by the first `i` logical calls plus the first `b` bytes of
     /// call `i`, then apply per-file truncations
     fn build_image(&self, i: usize, b: usize, trunc: &[(String, u64)]) -> Result<PathBuf, String> {
-        let img = self.root.join("img");
+        self.build_image_at(self.root.join("img"), i, b, trunc)
+    }
+
+    fn build_image_at(&self, img: PathBuf, i: usize, b: usize, trunc: &[(String, u64)]) -> Result<PathBuf, String> {
         let _ = fs::remove_dir_all(&img);
         fs::create_dir_all(&img).map_err(|e| e.to_string())?;
         let apply = |c: &Call, limit: Option<usize>| -> Result<(), String> {
@@ -493,13 +496,23 @@ impl Store {
             };
             let h = kv.get_handle();
             let mut parts = vec![];
+            let mut panicked = false;
             for k in &keys {
+                if panicked {
+                    // a panicking read does not return its reader to the pool: a further read
+                    // could spin forever (that hang is C04's subject; here the panic is reported)
+                    parts.push(format!("{}=skipped-after-panic", hex_tok(k)));
+                    continue;
+                }
                 let r = catch_unwind(AssertUnwindSafe(|| KeyValueStorage::get(&h, Bytes::from(k.clone()))));
                 let v = match r {
                     Ok(Ok(Some(v))) => show_val(&v),
                     Ok(Ok(None)) => "nil".into(),
                     Ok(Err(e)) => format!("err:{}", err_kind(&e)),
-                    Err(_) => "panic".into(),
+                    Err(_) => {
+                        panicked = true;
+                        "panic".into()
+                    }
                 };
                 parts.push(format!("{}={}", hex_tok(k), v));
             }
@@ -701,6 +714,37 @@ impl Store {
                 Some(match img {
                     Ok(p) => self.open_image(&p),
                     Err(e) => format!("image-error {}", e.replace(' ', "_")),
+                })
+            }
+            ["d3cut", _, _] => Some("d3 n/a".into()),
+            ["restore", i, b] => {
+                // continue from the directory a crash at cut (i, b) leaves behind
+                let (i, b): (usize, usize) = (i.parse().ok()?, b.parse().ok()?);
+                self.close();
+                // let the background thread of the dropped store finish with its files
+                std::thread::sleep(std::time::Duration::from_millis(2));
+                if let Some(io) = &self.io {
+                    io.set_dir(Path::new(""));
+                }
+                let r = self.build_image_at(self.dir.clone(), i, b, &[]);
+                let mut tr: Vec<Call> = self.trace.iter().take(i).cloned().collect();
+                if b > 0 {
+                    if let Some(Call::Append { name, bytes, .. }) = self.trace.get(i) {
+                        tr.push(Call::Append {
+                            name: name.clone(),
+                            bytes: bytes[..b.min(bytes.len())].to_vec(),
+                            whole: false,
+                        });
+                    }
+                }
+                self.trace = tr;
+                if let Some(io) = &self.io {
+                    io.set_dir(&self.dir);
+                    let _ = io.drain();
+                }
+                Some(match r {
+                    Ok(_) => "ok".into(),
+                    Err(e) => format!("restore-error {}", e.replace(' ', "_")),
                 })
             }
             ["nohints"] => {
